@@ -130,6 +130,22 @@ func c17Histories() []c17History {
 		hs = append(hs, c17History{name: "retyped-application/auth-acct-auth", xmls: []string{au, ac, au}})
 		hs = append(hs, c17History{name: "retyped-application/base-auth-acct", xmls: []string{base[0], au, ac}})
 	}
+	// one dictionary that declares the same AVP NAME under two codes (two vendors' code spaces, or an
+	// entry corrected further down the file), the later declaration carrying the LOWER code: a lookup
+	// by name yields the later declaration, from the application itself and from a child application
+	{
+		x := `<?xml version="1.0" encoding="UTF-8"?><diameter><application id="0" name="Base">
+<avp name="Twice-Named" code="9700" must="M"><data type="Unsigned32"/></avp>
+<avp name="Between" code="9650" must="M"><data type="UTF8String"/></avp>
+<avp name="Twice-Named" code="9600" must="M" vendor-id="20000"><data type="Unsigned64"/></avp>
+<avp name="Zone" code="9502" must="M" vendor-id="9"><data type="Unsigned32"/></avp>
+<avp name="Zone" code="9501" must="M" vendor-id="9"><data type="OctetString"/></avp>
+</application></diameter>`
+		y := strings.Replace(strings.Replace(x, `id="0" name="Base"`, `id="9101" type="auth" name="Sorted"`, 1), "Twice-Named", "Twice-Named-App", -1)
+		hs = append(hs, c17History{name: "same-name-two-codes/base", xmls: []string{x}})
+		hs = append(hs, c17History{name: "same-name-two-codes/app-then-base", xmls: []string{y, x}})
+		hs = append(hs, c17History{name: "same-name-two-codes/on-top-of-base", xmls: []string{base[0], x, y}})
+	}
 	// one file with several <application> elements: bare re-declarations of already loaded
 	// applications (as one writes to name a dependency) before, between and after populated ones
 	multi := func(order string) string {
@@ -550,7 +566,7 @@ func runC17(ctx *ev.Ctx) {
 	}
 	ctx.Set("lookups_compared", total)
 	ctx.AddEvals(total, total)
-	ctx.Rule = "three child processes whose first use of dict.Default is Load / LoadFile of a dictionary that re-declares embedded AVPs / one lookup and then the Load (control): the definitions loaded last win in all three, which resolve identically; the generated-family and reload histories also through dict.NewParser(file1, file2, ...) in one call (five times each): argument order is load order; loading histories: a dictionary loaded again after another one redefined its AVPs and a file edited and reloaded from the same path (through Load and through LoadFile with temporary files); one application id declared under two types by successive loads; dictionary files with several application elements (bare re-declarations of loaded applications before / between / after populated ones); the embedded dictionaries (extracted from diam/dict/default.go) in default order, every rotation and every adjacent swap; a generated family of four 3-AVP dictionaries that redefine each other's codes and names across application 0 / 4 / 16777251 and vendor variants, in all 24 orders, alone and on top of the base dictionary. After every Load - and after Loads that are rejected (a re-declared command, an undeclarable data type, truncated XML) following the first and the last dictionary of each history: FindAVPWithVendor by uint32 code, by int code and by name, FindAVP by int, FindCommand and App(id[,type]) for every application (loaded, children of the parent map, 0, an unrelated id) x every code / name present anywhere plus +-1 neighbours x vendor {declared, 0, another, wildcard}, plus every code looked up under two different vendor ids directly after one another, (the key space is that of ALL dictionaries of the history, so keys are also looked up while still undefined) are compared with the reference model, and everything resolvable before the Load must still be. Distinct by (history, query)."
+	ctx.Rule = "three child processes whose first use of dict.Default is Load / LoadFile of a dictionary that re-declares embedded AVPs / one lookup and then the Load (control): the definitions loaded last win in all three, which resolve identically; the generated-family and reload histories also through dict.NewParser(file1, file2, ...) in one call (five times each): argument order is load order; loading histories: a dictionary loaded again after another one redefined its AVPs and a file edited and reloaded from the same path (through Load and through LoadFile with temporary files); one dictionary declaring an AVP name under two codes, the later one with the lower code; one application id declared under two types by successive loads; dictionary files with several application elements (bare re-declarations of loaded applications before / between / after populated ones); the embedded dictionaries (extracted from diam/dict/default.go) in default order, every rotation and every adjacent swap; a generated family of four 3-AVP dictionaries that redefine each other's codes and names across application 0 / 4 / 16777251 and vendor variants, in all 24 orders, alone and on top of the base dictionary. After every Load - and after Loads that are rejected (a re-declared command, an undeclarable data type, truncated XML) following the first and the last dictionary of each history: FindAVPWithVendor by uint32 code, by int code and by name, FindAVP by int, FindCommand and App(id[,type]) for every application (loaded, children of the parent map, 0, an unrelated id) x every code / name present anywhere plus +-1 neighbours x vendor {declared, 0, another, wildcard}, plus every code looked up under two different vendor ids directly after one another, (the key space is that of ALL dictionaries of the history, so keys are also looked up while still undefined) are compared with the reference model, and everything resolvable before the Load must still be. Distinct by (history, query)."
 	ctx.Assume = []string{"reference model refdict: application -> documented parents (16777251->4, 16777238->4, 4->1) -> base; exact vendor or wildcard; last load wins"}
 }
 
